@@ -72,6 +72,18 @@ CHECKS = {
             "torsion families; each real-scale scalar multiplication costs ~4 s of TLC time, which bounds the sample (tens quick, ~1000 thorough).",
             "TLA+ Edwards group law: exhaustive TLC on toy curves + TLC trace validation of recorded scalar multiplications at real scale",
             "5/C03"),
+    "C01": ("model_checking",
+            "TLC decides on a complete toy universe (every A string x R string x S string x reduced challenge x all 32 option vectors x "
+            "length flag; 131k states, ~20 M predicate evaluations) that the implementation-shaped verification (ordered admission checks, "
+            "lazy R decompression, delta-scaled equation for every admissible short vector, byte compare) equals the declarative predicate, "
+            "that the predicate is a function of the request's class, and the StdLib / FIPS 186-5 / ZIP-215 equivalences. The class function "
+            "is then bound to the code: a Go replayer builds ~12k real requests of known class (all torsion index pairs, all 32 option "
+            "vectors, encoding kinds, S boundary family, lengths, pure/ctx/ph; plain and expanded-key paths; crypto/ed25519 under StdLib) and "
+            "TLC checks every recorded decision; a stratified sample is re-decided from the bytes by the same predicate at real scale.",
+            "Trusts TLC/SANY, BigNat/F25519/Edwards, SHA-512 of the Go standard library (the spec rebuilds the hash input), and the "
+            "replayer's construction of [a]B+[i]T8 for the class layer (cross-checked by the real-scale sample: 32 quick / 640 thorough).",
+            "TLA+ Ed25519 predicate: exhaustive TLC at toy scale; class verdicts and real-scale re-decision by TLC trace validation",
+            "5/C01"),
 }
 
 NOT_YET = "check not built yet in this round (planned, see DESIGN.md section 11); not claimed until its machinery exists"
